@@ -27,6 +27,7 @@ ASSUMPTIONS = [
     "events are PluginEvent/UnplugEvent/RecomputeEvent with the library's precedences; timestamps from a small integer alphabet",
     "canonical state drops _timestep (no method reads it before overwriting it) and event identities (heap behaviour depends on (ts,precedence) only)",
     "bounded depth: behaviours needing longer operation sequences are outside the guarantee",
+    "third shape ('ident'): every add sequence of length 4 (thorough 5) over timestamps {0,1} x {unplug, plug-in} x two sessions (+recompute), optional JSON dump, drained by get_event / get_current_events",
     "second shape ('fill'): every add sequence of length 6 (thorough 7) over timestamps {0,1} x kinds, optional JSON dump, then a complete drain with get_event on original and restored queue",
 ]
 CHUNK = 8
@@ -59,10 +60,15 @@ def alphabet(b):
     return ops
 
 
-def mk_event(ts, kind):
+def mk_event(ts, kind, who=None):
     _uid[0] += 1
     if kind == "R":
         return RecomputeEvent(ts)
+    if who is not None:
+        # events of a small pool of sessions: the same session may have its plug-in and its unplug pending at one
+        # timestamp, and session order is the reverse of station order (ordering must not look at either)
+        ev = EV(ts, ts + 3, 5.0, "PS-%d" % (1 - who), "sess-%d" % who, Battery(10, 0, 7))
+        return PluginEvent(ts, ev) if kind == "P" else UnplugEvent(ts, ev)
     ev = EV(ts, ts + 3, 5.0, "PS-%d" % (_uid[0] % 3), "sess-%d" % _uid[0], Battery(10, 0, 7))
     return PluginEvent(ts, ev) if kind == "P" else UnplugEvent(ts, ev)
 
@@ -113,7 +119,7 @@ def step(st: State, op, viol):
     name = op[0]
     try:
         if name == "add":
-            e = mk_event(op[1], op[2])
+            e = mk_event(op[1], op[2], op[3] if len(op) > 3 else None)
             for q in qs:
                 q.add_event(e)
             s.model.append(key(e))
@@ -268,6 +274,38 @@ def run_fill(item):
     return acc
 
 
+IDENT = [(ts, k, who) for ts in (0, 1) for k in ("U", "P") for who in (0, 1)] + [(0, "R", None), (1, "R", None)]
+
+
+def run_ident(item):
+    """third exploration shape: events that carry identities (two sessions on two stations, session order the reverse
+    of station order; one session's plug-in and unplug may be pending at the same timestamp): every add sequence of
+    length n, optional JSON dump, then drained by get_event, or by get_current_events(0), (1)"""
+    import itertools
+
+    acc = Acc()
+    n = item["n"]
+    for rest in itertools.product(range(len(IDENT)), repeat=n - 1):
+        seq = [item["first"]] + list(rest)
+        ops = [["add", IDENT[i][0], IDENT[i][1]] + ([IDENT[i][2]] if IDENT[i][2] is not None else []) for i in seq]
+        for tail in (["json"], []):
+            for drain in ([["get"]] * n, [["cur", 0], ["cur", 1]], [["get"], ["cur", 1]]):
+                full = ops + [[t] for t in tail] + drain
+                st, viol = exec_ops(full)
+                acc.transitions += len(full)
+                for sig, what, obs, exp in viol:
+                    acc.violation(sig, what, {"ops": full}, obs, exp)
+                if st is not None:
+                    acc.outcome(("ident", len(st.model)))
+        heap = tuple(IDENT[i] for i in seq)
+        acc.state(("ident", heap))
+        if len({(ts, who) for ts, k, who in heap if who is not None}) < sum(1 for ts, k, who in heap if who is not None):
+            acc.nt(("ident", heap))
+    acc.evals += acc.transitions
+    acc.sample({"identity_fill_then_drain": n, "first": IDENT[item["first"]]}, cap=1)
+    return acc
+
+
 def space(tier, seed):
     """Parent-side BFS to split_depth; the de-duplicated frontier histories are the work items."""
     b = bounds(tier, seed)
@@ -280,12 +318,16 @@ def space(tier, seed):
     n = 6 if tier == "quick" else 7
     for f in range(len(FILL_KINDS)):
         items.append({"fill": True, "n": n, "firsts": [f], "tier": tier})
+    for f in range(len(IDENT)):
+        items.append({"ident": True, "n": 4 if tier == "quick" else 5, "first": f, "tier": tier})
     return items
 
 
 def run(item):
     if item.get("fill"):
         return run_fill(item)
+    if item.get("ident"):
+        return run_ident(item)
     acc = Acc()
     b = bounds(item["tier"], 0)
     ops = alphabet(b)
